@@ -10,80 +10,139 @@ P = ['C01', 'C19']
 AS = 'src/annotationstore.rs'
 
 SPEC = r'''
+/// the selector SelectorIter::get_internal_ranged_item reconstructs for annotation h of a text-carrying range: the annotation
+/// with the text selection its own target carries (whole text), in the default offset mode
+pub open spec fn whole_sel(store: &AnnotationStore, h: AnnotationHandle) -> Selector {
+    match store.ann(h) {
+        Some(a) => match target_text(a.target) {
+            Some((r, t)) => Selector::AnnotationSelector(h, Some((r, t, OffsetMode::BeginBegin))),
+            None => Selector::AnnotationSelector(h, None),
+        },
+        None => Selector::AnnotationSelector(h, None),
+    }
+}
+
 /// the selectors an internal ranged selector stands for
-pub open spec fn expand(sel: Selector) -> Seq<Selector> {
+pub open spec fn expand(store: &AnnotationStore, sel: Selector) -> Seq<Selector> {
     match sel {
         Selector::RangedTextSelector { resource, begin, end } =>
             Seq::new((end.0 - begin.0 + 1) as nat, |i: int| Selector::TextSelector(resource, TextSelectionHandle((begin.0 + i) as u32), OffsetMode::BeginBegin)),
         Selector::RangedAnnotationSelector { begin, end, with_text: false } =>
             Seq::new((end.0 - begin.0 + 1) as nat, |i: int| Selector::AnnotationSelector(AnnotationHandle((begin.0 + i) as u32), None)),
+        Selector::RangedAnnotationSelector { begin, end, with_text: true } =>
+            Seq::new((end.0 - begin.0 + 1) as nat, |i: int| whole_sel(store, AnnotationHandle((begin.0 + i) as u32))),
         _ => seq![sel],
     }
 }
 
-pub open spec fn flat(s: Seq<Selector>) -> Seq<Selector>
+pub open spec fn flat(store: &AnnotationStore, s: Seq<Selector>) -> Seq<Selector>
     decreases s.len()
 {
-    if s.len() == 0 { Seq::empty() } else { flat(s.drop_last()) + expand(s.last()) }
+    if s.len() == 0 { Seq::empty() } else { flat(store, s.drop_last()) + expand(store, s.last()) }
 }
 
-/// inputs of the merge loop: simple selectors (the loop never sees ranged ones); annotation selectors with an
-/// offset are excluded here (their compression additionally depends on the parent's text, see DESIGN.md)
-pub open spec fn simple_input(s: Seq<Selector>) -> bool {
+/// what a selector denotes: an annotation selector with text denotes the annotation and a range of text of a resource (which
+/// text-selection handle of that range, and which offset mode it is reported in, is not part of the target); everything else
+/// denotes itself
+pub enum Den { AnnText(AnnotationHandle, TextResourceHandle, int, int), Plain(Selector) }
+
+pub open spec fn den(store: &AnnotationStore, sel: Selector) -> Den {
+    match sel {
+        Selector::AnnotationSelector(a, Some((r, t, _))) => match store.res(r) {
+            Some(res) => match res.sel(t) { Some(ts) => Den::AnnText(a, r, ts.begin as int, ts.end as int), None => Den::Plain(sel) },
+            None => Den::Plain(sel),
+        },
+        _ => Den::Plain(sel),
+    }
+}
+pub open spec fn dens(store: &AnnotationStore, s: Seq<Selector>) -> Seq<Den> { Seq::new(s.len(), |i: int| den(store, s[i])) }
+
+/// an annotation selector with text in the input: its handles are live, its text selection lies on the resource of the
+/// annotation it points at, and that annotation's own target carries text and is valid (invariants of a consistent store)
+pub open spec fn sub_valid(store: &AnnotationStore, sel: Selector) -> bool {
+    match sel {
+        Selector::AnnotationSelector(a, Some((res, _, _))) => selector_valid(sel, store) && selector_valid(store.ann(a).unwrap().target, store)
+            && (match target_text(store.ann(a).unwrap().target) { Some((pres, _)) => pres == res, None => true }),
+        _ => true,
+    }
+}
+
+/// inputs of the merge loop: simple selectors (the loop never sees ranged ones)
+pub open spec fn simple_input(store: &AnnotationStore, s: Seq<Selector>) -> bool {
     forall|i: int| 0 <= i < s.len() ==> match #[trigger] s[i] {
         Selector::RangedTextSelector { .. } => false,
         Selector::RangedAnnotationSelector { .. } => false,
-        Selector::AnnotationSelector(_, Some(_)) => false,
-        _ => true,
+        _ => sub_valid(store, s[i]),
     }
 }
 
 /// what the loop builds: every ranged selector is a proper ascending range
-pub open spec fn ranges_ok(s: Seq<Selector>) -> bool {
+pub open spec fn ranges_ok(store: &AnnotationStore, s: Seq<Selector>) -> bool {
     forall|i: int| 0 <= i < s.len() ==> match #[trigger] s[i] {
         Selector::RangedTextSelector { begin, end, .. } => begin.0 < end.0,
-        Selector::RangedAnnotationSelector { begin, end, with_text } => begin.0 < end.0 && !with_text,
-        Selector::AnnotationSelector(_, Some(_)) => false,
-        _ => true,
+        Selector::RangedAnnotationSelector { begin, end, .. } => begin.0 < end.0,
+        _ => sub_valid(store, s[i]),
     }
 }
 
-pub proof fn lemma_flat_push(s: Seq<Selector>, x: Selector)
-    ensures flat(s.push(x)) =~= flat(s) + expand(x),
+pub proof fn lemma_flat_push(store: &AnnotationStore, s: Seq<Selector>, x: Selector)
+    ensures flat(store, s.push(x)) =~= flat(store, s) + expand(store, x),
 {
     assert(s.push(x).drop_last() =~= s);
     assert(s.push(x).last() == x);
 }
 
-pub proof fn lemma_flat_update_last(s: Seq<Selector>, y: Selector)
+pub proof fn lemma_flat_update_last(store: &AnnotationStore, s: Seq<Selector>, y: Selector)
     requires s.len() > 0,
-    ensures flat(s.update(s.len() - 1, y)) =~= flat(s.drop_last()) + expand(y),
+    ensures flat(store, s.update(s.len() - 1, y)) =~= flat(store, s.drop_last()) + expand(store, y),
 {
     let u = s.update(s.len() - 1, y);
     assert(u.drop_last() =~= s.drop_last());
     assert(u.last() == y);
 }
+
+pub proof fn lemma_dens_concat(store: &AnnotationStore, a: Seq<Selector>, b: Seq<Selector>)
+    ensures dens(store, a + b) =~= dens(store, a) + dens(store, b),
+{}
+
+/// an annotation selector whose offset within the annotation's text is "everything" denotes what the reconstructed selector denotes
+pub proof fn lemma_whole(store: &AnnotationStore, sel: Selector, o: Offset)
+    requires
+        sub_valid(store, sel),
+        sel matches Selector::AnnotationSelector(a, Some((res, tsel, _))) && (match target_text(store.ann(a).unwrap().target) {
+            Some((pres, ptsel)) => { let parent = store.res(pres).unwrap().sel(ptsel).unwrap(); let t = store.res(res).unwrap().sel(tsel).unwrap();
+                                      embeds_sel(parent, t) && resolve_in(o, parent) == (t.begin as int, t.end as int) },
+            None => false }),
+        o.begin == Cursor::BeginAligned(0), o.end == Cursor::EndAligned(0),
+    ensures
+        sel matches Selector::AnnotationSelector(a, _) && den(store, whole_sel(store, a)) == den(store, sel),
+{}
 '''
 
 
 MERGE_HINT = '''proof {
                 let i = vx_it.index@ as int;
                 assert(tmp@.take(i + 1) =~= tmp@.take(i).push(vx_sel));
+                assert(dens(self, tmp@.take(i + 1)) =~= dens(self, tmp@.take(i)).push(den(self, vx_sel)));
                 if vx_skip {
                     let y = results@.last();
                     assert(results@ =~= vx_r0.update(vx_r0.len() - 1, y));
-                    lemma_flat_update_last(vx_r0, y);
-                    assert(flat(vx_r0) =~= flat(vx_r0.drop_last()) + expand(vx_r0.last()));
-                    assert(expand(y) =~= expand(vx_r0.last()) + seq![vx_sel]);
-                    assert(flat(results@) =~= (flat(vx_r0.drop_last()) + expand(vx_r0.last())) + seq![vx_sel]);
-                    assert(flat(results@) =~= flat(vx_r0).push(vx_sel));
+                    lemma_flat_update_last(self, vx_r0, y);
+                    assert(flat(self, vx_r0) =~= flat(self, vx_r0.drop_last()) + expand(self, vx_r0.last()));
+                    // the substituted range stands for what the last result stood for, followed by what this selector denotes
+                    assert(dens(self, expand(self, y)) =~= dens(self, expand(self, vx_r0.last())).push(den(self, vx_sel)));
+                    lemma_dens_concat(self, flat(self, vx_r0.drop_last()), expand(self, y));
+                    lemma_dens_concat(self, flat(self, vx_r0.drop_last()), expand(self, vx_r0.last()));
+                    assert(dens(self, flat(self, results@)) =~= dens(self, flat(self, vx_r0)).push(den(self, vx_sel)));
                 } else {
                     assert(results@ =~= vx_r0.push(vx_sel));
-                    lemma_flat_push(vx_r0, vx_sel);
-                    assert(expand(vx_sel) =~= seq![vx_sel]);
-                    assert(flat(results@) =~= flat(vx_r0).push(vx_sel));
+                    lemma_flat_push(self, vx_r0, vx_sel);
+                    assert(expand(self, vx_sel) =~= seq![vx_sel]);
+                    lemma_dens_concat(self, flat(self, vx_r0), seq![vx_sel]);
+                    assert(dens(self, seq![vx_sel]) =~= seq![den(self, vx_sel)]);
+                    assert(dens(self, flat(self, results@)) =~= dens(self, flat(self, vx_r0)).push(den(self, vx_sel)));
                 }
-                assert(flat(results@) =~= tmp@.take(i + 1));
+                assert(dens(self, flat(self, results@)) =~= dens(self, tmp@.take(i + 1)));
             }'''
 
 
@@ -100,14 +159,14 @@ def build():
                      ('R-continue', r'continue; //prevent reaching the push below', 'vx_skip = true;'),
                      ('R-continue', r'results\.push\(selector\);', 'if !vx_skip { results.push(selector); }')],
            after=[('if !vx_skip { results.push(selector); }', MERGE_HINT, None, 'lossless')],
-           requires=[('simple', 'simple_input(tmp@)')],
+           requires=[('simple', 'simple_input(self, tmp@)')],
            ensures=[('ok', 'r is Ok'),
-                    ('lossless', 'r is Ok ==> flat(r->Ok_0@) =~= tmp@'),
-                    ('proper_ranges', 'r is Ok ==> ranges_ok(r->Ok_0@)')],
+                    ('lossless', 'r is Ok ==> dens(self, flat(self, r->Ok_0@)) =~= dens(self, tmp@)'),
+                    ('proper_ranges', 'r is Ok ==> ranges_ok(self, r->Ok_0@)')],
            loops={r'vx_it: tmp\b': dict(invariant=[
-               ('lossless', 'flat(results@) =~= tmp@.take(vx_it.index@ as int)'),
-               ('ranges', 'ranges_ok(results@)'),
-               ('input', 'simple_input(tmp@)'),
+               ('lossless', 'dens(self, flat(self, results@)) =~= dens(self, tmp@.take(vx_it.index@ as int))'),
+               ('ranges', 'ranges_ok(self, results@)'),
+               ('input', 'simple_input(self, tmp@)'),
            ])}),
     ])
     return u
